@@ -55,6 +55,7 @@ type script struct {
 	Steps     []step          `json:"steps"`
 	Eager     bool            `json:"eager"`
 	Alloc     string          `json:"alloc"`
+	Async     bool            `json:"async"` // AsyncReadInPoller with a managed executor (C02 gate replay)
 }
 
 type summary struct {
@@ -70,6 +71,7 @@ type summary struct {
 
 var tr *hlib.Trace
 var tmpdir string
+var debug = os.Getenv("VERIF_DEBUG") != ""
 
 func main() {
 	in := flag.String("scripts", "", "")
@@ -116,6 +118,8 @@ func main() {
 	fmt.Println(string(b))
 	os.Exit(0)
 }
+
+func inByte(off int) byte { return byte(off*7 + 3) }
 
 func causeName(err error) string {
 	switch {
@@ -171,6 +175,24 @@ func runScript(sc *script, sum *summary) (clean bool) {
 	case "OS":
 		cfg.EpollMod = nbio.EPOLLET
 		cfg.EPOLLONESHOT = nbio.EPOLLONESHOT
+	}
+	taskn := 0
+	if sc.Async {
+		cfg.AsyncReadInPoller = true
+		cfg.IOExecute = func(f func(*[]byte)) {
+			taskn++
+			name := fmt.Sprintf("t%d", taskn)
+			run := func() {
+				buf := make([]byte, sc.RdBuf)
+				f(&buf)
+			}
+			if t := vrt.Cur(); t != nil {
+				t.Yield(vrt.Op{Kind: "go", Tag: "ioexecute"})
+				s.Spawn(name, run)
+				return
+			}
+			go run()
+		}
 	}
 	g := nbio.NewEngine(cfg)
 	dec := hlib.NewDecoder()
@@ -243,7 +265,19 @@ func runScript(sc *script, sum *summary) (clean bool) {
 		tr.Emit(hlib.Ev{"ev": "open"})
 		doOps("o", sc.Threads["o"])
 	})
-	g.OnData(func(cc *nbio.Conn, data []byte) {})
+	inDel := 4
+	g.OnData(func(cc *nbio.Conn, data []byte) {
+		if sc.Focus == "C02" {
+			ok := true
+			for i, b := range data {
+				if b != inByte(inDel+i) {
+					ok = false
+				}
+			}
+			tr.Emit(hlib.Ev{"ev": "data", "c": 0, "lo": inDel, "hi": inDel + len(data), "ok": ok})
+			inDel += len(data)
+		}
+	})
 	oncloseCh := make(chan struct{}, 4)
 	g.OnClose(func(cc *nbio.Conn, err error) {
 		tr.Emit(hlib.Ev{"ev": "onclose", "err": causeName(err)})
@@ -271,6 +305,7 @@ func runScript(sc *script, sum *summary) (clean bool) {
 	}
 
 	stuck := false
+	inOff := 4
 	lazyPending := map[string]bool{}
 	threadsSeen := map[string]bool{}
 	for i, st := range sc.Steps {
@@ -283,7 +318,12 @@ func runScript(sc *script, sum *summary) (clean bool) {
 					drift(sum, sc, i, st, fmt.Sprintf("peer could read only %d of %d bytes", got, st.M))
 				}
 			case "peersend":
-				vsys.PeerSend(fd, make([]byte, st.M))
+				b := make([]byte, st.M)
+				for i := range b {
+					b[i] = inByte(inOff + i)
+				}
+				inOff += st.M
+				vsys.PeerSend(fd, b)
 			case "eintr":
 				vsys.InjectWrite(fd, syscall.EINTR)
 			case "eagain":
@@ -302,7 +342,15 @@ func runScript(sc *script, sum *summary) (clean bool) {
 				err = s.PassTransparent(st.T)
 			} else {
 				vsys.LazyRet = st.L
-				_, err = s.Step(st.T)
+				var gop vrt.Op
+				gop, err = s.Step(st.T)
+				if debug {
+					nxt := ""
+					if th := s.Thread(st.T); th != nil && !th.Exited() {
+						nxt = th.Pending().String()
+					}
+					fmt.Fprintf(os.Stderr, "  step %d %s %-8s granted %-16s next %-16s err=%v\n", i, st.T, st.A, gop.String(), nxt, err)
+				}
 				if nr, ok := err.(vrt.ErrNotRunnable); ok && len(lazyPending) > 0 && strings.Contains(nr.Why, "lock") {
 					// the lock is held by a thread parked lazily after its syscall: let it finish its step
 					for name := range lazyPending {
@@ -338,8 +386,12 @@ func runScript(sc *script, sum *summary) (clean bool) {
 	}
 	// ---- drain to quiescence: the peer keeps reading, every runnable thread runs ----
 	if !stuck {
+		maxSteps := 100000
+		if sc.Focus == "C02" {
+			maxSteps = 3000 // a reader that has not gone idle after 3000 steps without new input spins
+		}
 		for round := 0; round < 100000; round++ {
-			n, err := s.RunToQuiescence(100000, nil)
+			n, err := s.RunToQuiescence(maxSteps, nil)
 			if err != nil {
 				stuck = true
 				break
@@ -423,6 +475,9 @@ func runScript(sc *script, sum *summary) (clean bool) {
 			}
 			vrt.Install(s)
 		}
+	}
+	if sc.Focus == "C02" {
+		tr.Emit(hlib.Ev{"ev": "sent", "c": 0, "n": inOff})
 	}
 	ks := vsys.State(fd)
 	tr.Emit(hlib.Ev{"ev": "quiesce", "open": !closed, "closed": closed, "queued": queued, "kbuf": ks.Kbuf,
